@@ -289,6 +289,7 @@ func (s *stream[T]) asReader() *StreamReader[T] {
 }
 
 func (s *stream[T]) recv() (chunk T, err error) {
+	verifYield(2)
 	item, ok := <-s.items
 
 	if !ok {
@@ -299,6 +300,7 @@ func (s *stream[T]) recv() (chunk T, err error) {
 }
 
 func (s *stream[T]) send(chunk T, err error) (closed bool) {
+	verifYield(0)
 	// if the stream is closed, return immediately
 	select {
 	case <-s.closed:
@@ -306,6 +308,7 @@ func (s *stream[T]) send(chunk T, err error) (closed bool) {
 	default:
 	}
 
+	verifYield(1)
 	item := streamItem[T]{chunk, err}
 
 	select {
@@ -317,10 +320,12 @@ func (s *stream[T]) send(chunk T, err error) (closed bool) {
 }
 
 func (s *stream[T]) closeSend() {
+	verifYield(3)
 	close(s.items)
 }
 
 func (s *stream[T]) closeRecv() {
+	verifYield(4)
 	close(s.closed)
 }
 
@@ -403,6 +408,7 @@ func newMultiStreamReader[T any](sts []*stream[T]) *multiStreamReader[T] {
 
 func (msr *multiStreamReader[T]) recv() (T, error) {
 	for len(msr.chosenList) > 0 {
+		verifYield(9)
 		var chosen int
 		var ok bool
 		if len(msr.chosenList) > maxSelectNum {
@@ -519,6 +525,7 @@ func (srw *streamReaderWithConvert[T]) toStream() *stream[T] {
 		}()
 
 		for {
+			verifYield(10)
 			out, err := srw.recv()
 			if err == io.EOF {
 				break
@@ -598,6 +605,7 @@ func (p *parentStreamReader[T]) peek(idx int) (t T, err error) {
 	// 1. Write the content of this cpStreamElement.
 	// 2. Initialize the 'next' field of this cpStreamElement with an empty cpStreamElement,
 	//    similar to the initialization in copyStreamReaders.
+	verifYield(5)
 	elem.once.Do(func() {
 		t, err = p.sr.Recv()
 		elem.item = streamItem[T]{chunk: t, err: err}
@@ -607,6 +615,7 @@ func (p *parentStreamReader[T]) peek(idx int) (t T, err error) {
 		}
 	})
 
+	verifYield(6)
 	// The element has been set and will not be modified again.
 	// Therefore, children can read this element's content and 'next' pointer concurrently.
 	t = elem.item.chunk
@@ -625,10 +634,12 @@ func (p *parentStreamReader[T]) close(idx int) {
 
 	p.subStreamList[idx] = nil
 
+	verifYield(7)
 	curClosedNum := atomic.AddUint32(&p.closedNum, 1)
 
 	allClosed := int(curClosedNum) == len(p.subStreamList)
 	if allClosed {
+		verifYield(8)
 		p.sr.Close()
 	}
 }
@@ -660,6 +671,7 @@ func (csr *childStreamReader[T]) toStream() *stream[T] {
 		}()
 
 		for {
+			verifYield(10)
 			out, err := csr.recv()
 			if err == io.EOF {
 				break
